@@ -223,7 +223,11 @@ class Aliases:
         if d.kind != "assign" or d.index is not None or d.value is None:
             return None
         v = d.value
-        ok = isinstance(v, (ast.Attribute, ast.Name, ast.Constant)) or (isinstance(v, ast.Call) and norm(v.func) == "len" and len(v.args) == 1 and isinstance(v.args[0], (ast.Name, ast.Attribute)))
+        ok = (
+            isinstance(v, (ast.Attribute, ast.Name, ast.Constant))
+            or (isinstance(v, ast.Call) and norm(v.func) == "len" and len(v.args) == 1 and isinstance(v.args[0], (ast.Name, ast.Attribute)))
+            or (isinstance(v, ast.Subscript) and isinstance(v.value, (ast.Attribute, ast.Name)) and isinstance(v.slice, ast.Constant))
+        )
         if not ok:
             return None
         # chains:  a = self.x; b = a
